@@ -61,7 +61,7 @@ type SpecFile struct {
 	Lemmas    []*Axiom
 }
 
-var clauseHead = regexp.MustCompile(`^(requires|ensures|modifies|assert)\s+(?:([A-Za-z_][A-Za-z0-9_]*)\s*)?(?:\[([A-Z0-9, ]*)\]\s*)?:\s*(.*)$`)
+var clauseHead = regexp.MustCompile(`^(requires|ensures|modifies|assert|decreases)\s+(?:([A-Za-z_][A-Za-z0-9_]*)\s*)?(?:\[([A-Z0-9, ]*)\]\s*)?:\s*(.*)$`)
 var loopHead = regexp.MustCompile(`^loop\s+(\d+)\s+invariant\s+(?:([A-Za-z_][A-Za-z0-9_]*)\s*)?(?:\[([A-Z0-9, ]*)\]\s*)?:\s*(.*)$`)
 var callsiteHead = regexp.MustCompile(`^callsite\s+([A-Za-z_][A-Za-z0-9_]*)\s*(?:\[([A-Z0-9, ]*)\]\s*)?(\S+?)#(\d+)\s*:\s*(.*)$`)
 var axiomHead = regexp.MustCompile(`^(axiom|lemma)\s+([A-Za-z_][A-Za-z0-9_]*)\s*(?:\[([A-Z0-9, ]*)\]\s*)?:\s*(.*)$`)
@@ -102,7 +102,7 @@ func (sf *SpecFile) parse(path, src string) error {
 	// collect logical items: an item starts at a //@ line whose content begins
 	// with a keyword; other //@ lines continue the previous item.
 	var items []rawItem
-	kw := regexp.MustCompile(`^(func|extern|spec|axiom|lemma|requires|ensures|modifies|assert|callsite|loop|inline|trusted|pure)\b`)
+	kw := regexp.MustCompile(`^(func|extern|spec|axiom|lemma|requires|ensures|modifies|assert|decreases|callsite|loop|inline|trusted|pure)\b`)
 	for i, ln := range strings.Split(src, "\n") {
 		t := strings.TrimSpace(ln)
 		if !strings.HasPrefix(t, "//@") {
